@@ -40,6 +40,12 @@ CHECKS = {
    text="TLC enumerates every mask with values in {-1,0,1,2} (both sides non-empty) x 2-D/image layout x unconditional transform x direction and proves the split / conditioner-input / write-back properties. Each state is replayed on the real classes with a conditioner that mixes all identity elements, so the measured Jacobian pattern must equal the specification's relation; identity features are compared bit for bit on inputs containing -0.0; library conditioners are checked for the subset relation.",
    design_ref="DESIGN.md section 4, C07",
    note="Feature counts 2..4 (5 thorough), images of 1x2 pixels; dependency measured by autograd (perturbation for UMNN). " + TRUSTED),
+
+ "C08": dict(
+   technique="TLA+ specifications of wrapper composition (spec/Compose.tla: denotation of every nesting; spec/Multiscale.tla over Tensor.tla views: shape book-keeping and coordinate routing) model-checked by TLC; every enumerated program / configuration replayed on the real wrappers",
+   text="TLC enumerates every nesting of Composite / Inverse up to depth 2 (atoms may repeat) and proves the algebraic laws of the denotation, and every multiscale configuration (rank <= 3, every split dimension, 1-3 stages, odd and even sizes) proving routing bijectivity, stage prefixes and that the inverse undoes the routing. Each state is replayed: real programs against hand-chained shared atoms (outputs and log-det sums, float64 1e-10), real multiscale transforms with prime-scaled affine stage tags against the exact value the specification's routing predicts for every coordinate, the log-det sum, the round trip and the inverse of an arbitrary flat vector.",
+   design_ref="DESIGN.md section 4, C08",
+   note="Bounded nesting depth / shape sizes. " + TRUSTED),
 }
 REASONS = {}
 
